@@ -49,8 +49,8 @@ class Atom:
         if self == atom:
             return True
         if self.kind == "app":
-            if self.name == "BigSum" and atom.key == "s:#i":
-                return False  # BigSum binds the index
+            if self.name == "BigSum" and atom.key == "s:#b%s" % self.args[0]:
+                return False  # BigSum binds its own index
             return any(isinstance(a, Num) and a.depends_on(atom) for a in self.args)
         if self.kind == "poly":
             return self.payload.depends_on(atom)
@@ -187,6 +187,23 @@ class Num:
 
     def depends_on(self, atom):
         return any(a.depends_on(atom) for a in self.atoms())
+
+    def all_atoms_free(self):
+        """atoms reachable without going under a BigSum binder"""
+        out = set()
+        stack = list(self.atoms())
+        while stack:
+            a = stack.pop()
+            if a in out:
+                continue
+            out.add(a)
+            if a.kind == "app" and a.name != "BigSum":
+                for arg in a.args:
+                    if isinstance(arg, Num):
+                        stack.extend(arg.atoms())
+            elif a.kind == "poly":
+                stack.extend(a.payload.atoms())
+        return out
 
     def sort(self):
         for m, c in self.terms.items():
@@ -426,28 +443,57 @@ def sexp(x):
 # ----------------------------------------------------------------------------------------------------------- big sums
 
 _BOUND = Atom("sym", "#i", sort="Int")
+_BOUND_COUNTER = [0]
 
 
 def bound_index():
     return Num.of_atom(_BOUND)
 
 
-def bigsum(seq_key, length, body):
-    """Sum over i in [0, length) of body, where body is a Num over the bound index atom `#i`.
-    Linearity and index-independent factors are normalised away; what remains are BigSum atoms keyed by the
-    canonical text of the index-dependent monomial."""
+def fresh_bound():
+    """a new bound index variable (for nested sums); bigsum() renames it to a canonical name by nesting depth"""
+    _BOUND_COUNTER[0] += 1
+    return Num.of_atom(Atom("sym", "#t%d" % _BOUND_COUNTER[0], sort="Int"))
+
+
+def is_bound_atom(a):
+    return a.kind == "sym" and a.name.startswith("#")
+
+
+def has_bound(x):
+    """does the number mention a (not yet summed-over) bound index variable?"""
+    return any(is_bound_atom(a) for a in x.all_atoms_free())
+
+
+def _sum_depth(x):
+    d = 0
+    for a in x.all_atoms():
+        if a.kind == "app" and a.name == "BigSum":
+            d = max(d, int(a.args[0]))
+    return d
+
+
+def bigsum(seq_key, length, body, bound=None):
+    """Sum over the bound index in [0, length) of body.  Linearity and index-independent factors are normalised away;
+    what remains are BigSum atoms identified by (nesting depth, canonical summand, index range)."""
+    batom = list((bound if bound is not None else bound_index()).atoms())[0]
+    length_n = length if isinstance(length, Num) else Num.const(length)
     out = Num.const(0)
     for m, c in body.terms.items():
-        indep = tuple((a, p) for a, p in m if not a.depends_on(_BOUND))
-        dep = tuple((a, p) for a, p in m if a.depends_on(_BOUND))
+        indep = tuple((a, p) for a, p in m if not a.depends_on(batom))
+        dep = tuple((a, p) for a, p in m if a.depends_on(batom))
         fac = Num({indep: c})
         if not dep:
-            out = out + fac * length
+            out = out + fac * length_n
         else:
             depnum = Num({dep: Fraction(1)})
-            length_n = length if isinstance(length, Num) else Num.const(length)
-            # identity of a big sum = (index range, summand); the name of the sequence it came from is irrelevant
-            out = out + fac * Num.of_atom(Atom("app", "BigSum", ("", depnum, length_n), sort="Real"))
+            depth = _sum_depth(depnum) + 1  # true nesting depth of the summand
+            canon = Atom("sym", "#b%d" % depth, sort="Int")
+            if batom != canon:
+                depnum = depnum.subst({batom: Num.of_atom(canon)})
+            # the substitution may have re-normalised the summand into several monomials
+            for m2, c2 in depnum.terms.items():
+                out = out + fac * c2 * Num.of_atom(Atom("app", "BigSum", (str(depth), Num({m2: Fraction(1)}), length_n), sort="Real"))
     return out
 
 
